@@ -889,6 +889,10 @@ pub fn same_key(a: &Node, b: &Node) -> bool {
 /// Err when a merge value is not a mapping / (nested) sequence of mappings / null.
 pub fn resolve_merges(doc: &Node) -> Result<Node, String> {
     fn is_null(n: &Node) -> bool {
+        // `!!null anything` is null; a null-like text under another tag is a value
+        if let Some(t) = &n.tag {
+            return t == "!!null" && matches!(n.kind, Kind::Scalar { .. });
+        }
         matches!(&n.kind, Kind::Scalar { value, style: Style::Plain } if matches!(value.as_str(), "~" | "null" | "Null" | "NULL"))
         // (an empty plain scalar is rendered as `""` by this renderer, which is not null)
     }
